@@ -44,6 +44,19 @@ use super::*;
 //%include factory_msgs_lp.rs
 //%include factory_pairmsgs.rs
 }
+pub mod pairmsg { pub use super::fpairmsg::*; }
+pub mod factoryq {
+use super::*;
+//%include haloswap_factoryq.rs
+}
+pub mod querier {
+use super::*;
+#[allow(unused_imports)] use super::shim::Decimal;
+use super::factoryq::{NativeTokenDecimalsResponse, QueryMsg as FactoryQueryMsg};
+use super::pairmsg::{QueryMsg as PairQueryMsg, ReverseSimulationResponse, SimulationResponse};
+//%include haloswap_querier.rs
+}
+pub use querier::*;
 // path alias so that `haloswap::pair::ExecuteMsg` in the extracted text resolves
 pub mod haloswap { pub mod pair { pub use crate::fpairmsg::*; } }
 pub mod factory {
